@@ -24,7 +24,7 @@ func main() {
 	runInclude(f, res, drv)
 	runPull(f, res, drv)
 	runSched(f, res, drv)
-	runBooking(f, res)
+	runBooking(f, res, drv)
 	if err := res.Write(f.Out); err != nil {
 		lib.Fatal(err)
 	}
